@@ -32,3 +32,136 @@ def canary_conflict_ignores_pairing():
 
 
 R.canaries.append(("pedigree.py:canary#conflict-iff-a-parent-shares-no-allele", canary_conflict_ignores_pairing))
+
+
+# ---------------------------------------------------------------------------------------------------------------------------------
+# find_recombination (C20: "each listed recombination lies between two variants of one phase set").
+# Every event returned names two positions p1 < p2 of the SAME block of `components` with no other variant of that block between them, at which the
+# transmission value changes; the transmitted haplotypes are the two bits of the transmission values at p1 and p2 and the cost is recombcost at p2.
+# (Nothing is said about which changes are reported: the first pair of every block is skipped by the code, see DESIGN.md.)
+from contracts.phase_py import DefaultDictOfLists  # noqa: E402
+
+R.declare_class("RecombinationEvent", {"position1": INT, "position2": INT, "transmitted_hap_father1": INT, "transmitted_hap_father2": INT,
+                                       "transmitted_hap_mother1": INT, "transmitted_hap_mother2": INT, "recombination_cost": INT})
+R.ctor_fields["RecombinationEvent"] = ["position1", "position2", "transmitted_hap_father1", "transmitted_hap_father2", "transmitted_hap_mother1", "transmitted_hap_mother2",
+                                       "recombination_cost"]
+
+
+class Blocks(DefaultDictOfLists):
+    """blocks = defaultdict(list): block id -> list of positions"""
+
+    def get(self, key):
+        k = to_z3(key)
+        lst = from_z3(self.d.map[k], self.d.val)
+        return VList(INT, lst.arr, z3.If(self.d.dom[k], lst.len, 0))
+
+    def sym_getitem(self, eng, st, key):
+        return self.get(key)
+
+    def sym_contains(self, eng, st, x):
+        return self.d.dom[to_z3(x)]
+
+    def sym_call_method(self, eng, st, name, args, kwargs, node=None):
+        if name == "items" and not args:
+            return VDictItems(self.d)
+        raise Unsupported("defaultdict.%s" % name)
+
+    def sym_setitem(self, eng, st, key, v):
+        k = to_z3(key)
+        return Blocks(VDict(INT, LIST(INT), z3.Store(self.d.dom, k, True), z3.Store(self.d.map, k, to_z3(v))))
+
+    def havoc(self, eng, st, name):
+        return Blocks(DICT(INT, LIST(INT)).fresh(name))
+
+
+_AI = z3.ArraySort(z3.IntSort(), z3.IntSort())
+CNT = z3.Function("BLOCK_CNT", _AI, z3.IntSort(), z3.IntSort(), z3.IntSort())
+SRCK = z3.Function("BLOCK_SRC", _AI, z3.IntSort(), z3.IntSort(), z3.IntSort())
+
+
+def _ord1(st):
+    return st.env["__setiter1__"][0][0]
+
+
+@R.spec
+def enum1(eng, st, j):
+    """the j-th key of `components` in the order loop 1 visits them"""
+    return _ord1(st)[to_z3(j)]
+
+
+@R.spec
+def cnt(eng, st, b, i):
+    return CNT(_ord1(st), to_z3(b), to_z3(i))
+
+
+@R.spec
+def srck(eng, st, b, c):
+    return SRCK(_ord1(st), to_z3(b), to_z3(c))
+
+
+@R.spec
+def BLOCKDEFS(eng, st):
+    """counting functions of a visiting order O of the keys (for EVERY order O): CNT(O, b, i) = number of keys O[0..i) in block b; SRCK(O, b, c) = the index of
+    the c-th such key"""
+    comp = st.env["components"]
+    O = z3.Const(fresh_name("O"), _AI)
+    b, i, j = z3.Ints(fresh_name("b") + " " + fresh_name("i") + " " + fresh_name("j"))
+    hit = comp.map[O[i]] == b
+    # the step is stated between two EXISTING terms CNT(O,b,i) and CNT(O,b,j), j == i + 1 (a pattern on one of them alone would unfold the recurrence for ever)
+    return z3.And(z3.ForAll([O, b], CNT(O, b, 0) == 0, patterns=[CNT(O, b, 0)]),
+                  z3.ForAll([O, b, i], z3.Implies(i >= 0, z3.And(CNT(O, b, i) >= 0, z3.Implies(hit, SRCK(O, b, CNT(O, b, i)) == i))), patterns=[CNT(O, b, i)]),
+                  z3.ForAll([O, b, i, j], z3.Implies(z3.And(i >= 0, j == i + 1), CNT(O, b, j) == CNT(O, b, i) + z3.If(hit, 1, 0)),
+                            patterns=[z3.MultiPattern(CNT(O, b, i), CNT(O, b, j))]))
+
+
+R.external_models["defaultdict"] = lambda eng, st, node, args, kwargs: Blocks()
+R.constants["list"] = z3.IntVal(0)
+_SORTEDPOS = "forall(a, b, implies(0 <= a and a < b and b < len(positions), positions[a] < positions[b]))"
+_EV_PARTS = {
+    "same-block": "({e}.position1 in components and {e}.position2 in components and components[{e}.position1] == components[{e}.position2] and {e}.position1 < {e}.position2)",
+    "adjacent": "forall(q, implies(q in components and components[q] == components[{e}.position1], not ({e}.position1 < q and q < {e}.position2)))",
+    "values": ("exists(a, b, 0 <= a and a < len(positions) and 0 <= b and b < len(positions) and positions[a] == {e}.position1 and positions[b] == {e}.position2 and "
+               "transmission_vector[a] != transmission_vector[b] and {e}.transmitted_hap_father1 == transmission_vector[a] % 2 and {e}.transmitted_hap_father2 == transmission_vector[b] % 2 and "
+               "{e}.transmitted_hap_mother1 == transmission_vector[a] // 2 and {e}.transmitted_hap_mother2 == transmission_vector[b] // 2 and {e}.recombination_cost == recombcost[b])"),
+}
+_EV_OK = ("({e}.position1 in components and {e}.position2 in components and components[{e}.position1] == components[{e}.position2] and {e}.position1 < {e}.position2 and "
+          "forall(q, implies(q in components and components[q] == components[{e}.position1], not ({e}.position1 < q and q < {e}.position2))) and "
+          "exists(a, b, 0 <= a and a < len(positions) and 0 <= b and b < len(positions) and positions[a] == {e}.position1 and positions[b] == {e}.position2 and "
+          "transmission_vector[a] != transmission_vector[b] and {e}.transmitted_hap_father1 == transmission_vector[a] % 2 and {e}.transmitted_hap_father2 == transmission_vector[b] % 2 and "
+          "{e}.transmitted_hap_mother1 == transmission_vector[a] // 2 and {e}.transmitted_hap_mother2 == transmission_vector[b] // 2 and {e}.recombination_cost == recombcost[b]))")
+R.contract(
+    "find_recombination",
+    params={"transmission_vector": LIST(INT), "components": DICT(INT, INT), "positions": LIST(INT), "recombcost": LIST(INT)}, returns=LIST(REF("RecombinationEvent")),
+    requires=[("positions-increase", _SORTEDPOS), ("components-are-positions", "forall(p, implies(p in components, exists(a, 0 <= a and a < len(positions) and positions[a] == p)))")],
+    ensures=[("every-event-lies-between-two-adjacent-variants-of-one-phase-set", "forall(k, implies(0 <= k and k < len(result), result[k] is not None and " + _EV_OK.format(e="result[k]") + "))")],
+    locals={"events": LIST(REF("RecombinationEvent")), "cum_recomb_cost": INT, "block": LIST(INT), "block_id": INT, "position": INT,
+            "__comp0": DICT(INT, INT), "position_to_index": DICT(INT, INT)},
+    loops={
+        0: dict(index="pi", inv=[("indexed", "forall(j, implies(0 <= j and j < pi, positions[j] in __comp0 and __comp0[positions[j]] == j))"),
+                                 ("only-positions", "forall(p, implies(p in __comp0, 0 <= __comp0[p] and __comp0[p] < pi and positions[__comp0[p]] == p))")]),
+        1: dict(index="ai", inv=[
+            ("members", "forall(b, c, implies(0 <= c and c < len(blocks[b]), 0 <= srck(b, c) and srck(b, c) < ai and components[enum1(srck(b, c))] == b and blocks[b][c] == enum1(srck(b, c))))"),
+            ("in-visiting-order", "forall(b, c1, c2, implies(0 <= c1 and c1 < c2 and c2 < len(blocks[b]), srck(b, c1) < srck(b, c2)))"),
+            ("lengths", "forall(b, len(blocks[b]) == cnt(b, ai) and implies(b in blocks, len(blocks[b]) >= 1))"),
+            ("complete", "forall(i, implies(0 <= i and i < ai, cnt(components[enum1(i)], i) < len(blocks[components[enum1(i)]]) and blocks[components[enum1(i)]][cnt(components[enum1(i)], i)] == enum1(i)))")]),
+        2: dict(index="bi", inv=[("events", "forall(k, implies(0 <= k and k < len(events), events[k] is not None and " + _EV_OK.format(e="events[k]") + "))")]),
+        3: dict(index="ci", inv=[
+            ("events-exist", "forall(k, implies(0 <= k and k < len(events), events[k] is not None))"),
+        ] + [("events-" + t_, "forall(k, implies(0 <= k and k < len(events), " + c_.format(e="events[k]") + "))") for t_, c_ in _EV_PARTS.items()] + [
+            ("block-sorted", "forall(a, b, implies(0 <= a and a < b and b < len(block), block[a] <= block[b]))"),
+            ("block-members", "forall(c, implies(0 <= c and c < len(block), block[c] in components and components[block[c]] == block_id))"),
+            ("block-distinct", "forall(a, b, implies(0 <= a and a < b and b < len(block), block[a] != block[b]))"),
+            ("block-covers", "forall(q, implies(q in components and components[q] == block_id, exists(c, 0 <= c and c < len(block) and block[c] == q)), triggers=[q in components])")]),
+    },
+    extra={"assume_asserts": [0, 1], "desugar_comprehensions": True, "allocates": ["RecombinationEvent"], "assume": ["BLOCKDEFS()"]},
+    props=["C20"])
+
+
+def canary_recombination():
+    import copy
+    c = copy.copy(R.contracts["find_recombination"])
+    c.ensures = [("wrong", "forall(k, implies(0 <= k and k < len(result), exists(a, 0 <= a and a + 1 < len(positions) and positions[a] == result[k].position1 and positions[a + 1] == result[k].position2)))")]
+    return c        # "an event always lies between two NEIGHBOURING accessible positions" (false when phase sets interleave)
+
+
+R.canaries.append(("pedigree.py:canary#recombination-between-neighbouring-positions", canary_recombination))
